@@ -12,6 +12,11 @@ def hook_commits():
         return []
 
 CHECKS = {
+ "C15": dict(
+    category="exploration", design_ref="DESIGN.md §4 C15",
+    technique="wire-level exactly-once checker on an embedded NATS server + callback log with sequence numbers + goroutine-profile and subscription-count leak probes + directed hook gates around expiry",
+    text="A real Service on a real nats.Conn to an embedded nats-server runs 1-50 concurrent query events (durations 5-100 ms, 1/4/32 workers); a gateway connection sends up to 5 query requests per event before/around/after expiry with valid, missing-query, malformed and empty payloads while callbacks reply, accumulate events, call Timeout, panic or do nothing. Responses per request inbox are counted on the wire (exactly one for requests flushed before the query.expire hook), response content is checked against the callback behaviour, nil must come exactly once and last, callbacks must not overlap within a group, and listener goroutines and subscriptions on both ends must return to the pre-run baseline; subscription failures are injected on the recording connection; gates park a late request until the nil call was queued and park the expiry after the drain; long histories of expired events check that nothing accumulates.",
+    note="Exactly-one is asserted only for requests flushed to the server before query.expire; at most 5 outstanding requests per event."),
  "C10": dict(
     category="exploration", design_ref="DESIGN.md §4 C10",
     technique="reference RES client cache replaying the events recorded on the connection, compared with a fresh get (canonical JSON); bounded-exhaustive collection pairs + random values and histories",
